@@ -19,6 +19,7 @@ import (
 	golog "log"
 	"net"
 	"os"
+	"strconv"
 	"strings"
 	"sync"
 	"syscall"
@@ -299,6 +300,8 @@ type c17Case struct {
 	Dial     string              `json:"dial"` // ok | fail
 	ProxyHdr bool                `json:"proxy_hdr"`
 	LogIP    bool                `json:"log_ip"`
+	// LOG_CLIENT_IP value for this case ("\x00unset" = variable not set); when present it replaces log_ip
+	LogEnv *string `json:"log_env"`
 	CtMode   string              `json:"ct_mode"`   // ct scenario: relay | fail | geo
 	GeoAfter int                 `json:"geo_after"` // GeoIP lookups that succeed before the scripted error
 	Level    string              `json:"level"`
@@ -502,11 +505,22 @@ func (e *c17Env) runCase(c c17Case) (res c17Res) {
 		d, _ := hex.DecodeString(h)
 		conn.reads = append(conn.reads, d)
 	}
-	logClientIP = c.LogIP
-	if c.LogIP {
+	if c.LogEnv != nil {
+		if *c.LogEnv == "\x00unset" {
+			os.Unsetenv("LOG_CLIENT_IP")
+		} else {
+			os.Setenv("LOG_CLIENT_IP", *c.LogEnv)
+		}
+	} else if c.LogIP {
 		os.Setenv("LOG_CLIENT_IP", "true")
 	} else {
 		os.Unsetenv("LOG_CLIENT_IP")
+	}
+	// what main() does with the variable at start-up (cmd/application/main.go)
+	var perr error
+	logClientIP, perr = strconv.ParseBool(os.Getenv("LOG_CLIENT_IP"))
+	if perr != nil {
+		logClientIP = false
 	}
 	if c.Level != "" {
 		l, _ := log.ParseLevel(c.Level)
